@@ -786,3 +786,13 @@ def gas_result_spec_1d(ctx):
                                                          RX + ":get_pressures_numba", RX + ":get_gas_vel_numba"], engine="E2")
 def gas_result_spec_2d(ctx):
     _gas_result_spec(ctx, True)
+
+
+
+@unit("C02", "pipe_sections/internal_nodes", functions=["pandapipes.component_models.pipe_component:Pipe.create_pit_node_entries"],
+      engine="E3")
+def pipe_internal_nodes_c02(ctx):
+    """the absolute pressures of the momentum equation at the internal nodes of a multi-section pipe: PINIT, HEIGHT
+    interpolated between the pipe's junctions, PAMB computed from the interpolated height of the same node (shared with C09)"""
+    from contracts.C09 import pipe_internal_nodes
+    pipe_internal_nodes(ctx)
